@@ -21,7 +21,7 @@ import itertools
 
 from ..cfg import CFG, ENTRY, EXIT, header_parts
 from ..effects import FS_DELETE, FS_WRITE, USER_CALL, _open_mode
-from ..flow import Defs, Scope, arg, bool_atoms, bool_eval, cond, guards, iterations, nnf
+from ..flow import Defs, Scope, arg, bool_atoms, bool_eval, cond, guards, iterations, nnf, reaching_value
 from ..loader import FuncInfo, dotted, norm, walk_no_nested
 from ..report import Ctx
 from ..selftest import Mutant
@@ -171,6 +171,15 @@ def rule_atomic(ctx: Ctx) -> None:  # noqa: C901, PLR0915
     ctx.tri("1-atomic", ATOMIC, aw.loc, ok, False, f"used by {sorted(u.rsplit('.', 2)[-2] + '.' + u.rsplit('.', 1)[-1] for u in users)}", "", f"atomic_write is used by {sorted(users)}", key="users")
 
 
+def _atom_nodes(test: ast.AST, truth: bool) -> list[tuple[ast.AST, bool]]:
+    """Atomic sub-tests (node, truth value) known when `test` evaluated to `truth` (`a and b` true / `a or b` false are split)."""
+    if isinstance(test, ast.UnaryOp) and isinstance(test.op, ast.Not):
+        return _atom_nodes(test.operand, not truth)
+    if isinstance(test, ast.BoolOp) and isinstance(test.op, ast.And if truth else ast.Or):
+        return [a for v in test.values for a in _atom_nodes(v, truth)]
+    return [(test, truth)]
+
+
 def _existence_guarded(ctx: Ctx, fn: FuncInfo, node: ast.AST, target: str) -> bool:
     """`node` in `fn` only executes when `<target>.is_file()` / `.exists()` held (enclosing if / ifexp / early exit)."""
     d = Defs(fn)
@@ -181,11 +190,17 @@ def _existence_guarded(ctx: Ctx, fn: FuncInfo, node: ast.AST, target: str) -> bo
     x = node
     while id(x) in par:
         child, x = x, par[id(x)]
-        if isinstance(x, ast.IfExp):
-            for test in (x.test, d.resolve(x.test)):  # as written, and with a named flag replaced by its definition
-                t, pol = cond(test)
-                if t in want and ((child is x.body and pol) or (child is x.orelse and not pol)):
-                    return True
+        if isinstance(x, ast.IfExp) and child is not x.test:
+            # the facts that hold in the selected arm: conjuncts as written, and with a named flag replaced by its definition
+            cfg_ = ctx.cfg(fn)
+            use = cfg_.node_containing(node)
+            for atom, truth in _atom_nodes(x.test, child is x.body):
+                # a flag is replaced by its definition: the unique one, or the one that reaches this statement
+                local = reaching_value(cfg_, atom.id, use) if isinstance(atom, ast.Name) and use is not None else None
+                for test in (atom, d.resolve(atom), *([local] if local is not None else [])):
+                    t, pol = cond(test)
+                    if t in want and pol == truth:
+                        return True
     cfg = ctx.cfg(fn)
     cn = cfg.node_containing(node)
     if cn is None:
